@@ -766,6 +766,7 @@ func main() {
 	run1DObligations()
 	run1DAsymmetric()
 	runBitmapHistories()
+	run1DContentSweep()
 	run1DHintCombos()
 	runFamily("QR (writer default quiet zone 4)", qrSpecs(), true)
 	runFamily("QR (MARGIN 0: the padding is the only quiet zone)", withMargin(qrSpecs(), 0), true)
